@@ -221,6 +221,8 @@ KNOWN_CTX = {"known": [], "prop": None}
 
 
 def is_tierb(leg):
+    if leg.startswith(("race:", "own:")):
+        return False
     return leg.startswith("quic/") or leg in ("udp", "ssh", "udp6") or leg.endswith("/udp") or leg.endswith("/ssh")
 
 
@@ -435,6 +437,12 @@ def _main(args, prop, cfg, tier, seed0, t0, scratch):
         if "WARNING: DATA RACE" in c["stderr"]:
             rep = c["stderr"][c["stderr"].index("WARNING: DATA RACE"):]
             repo_frames = [l.strip() for l in rep.splitlines() if "brendoncarroll.net/p2p" in l and "/zsimrt/" not in l]
+            # the racing ACCESSES are the first frame after each "Read at / Write at / Previous ..." line:
+            # a race whose accesses are all in harness code is the harness's, whatever is further up the stacks
+            lines_ = rep.splitlines()
+            tops = [lines_[i + 1].strip() for i, l in enumerate(lines_[:-1]) if (" at 0x" in l and " by " in l and ("ead at" in l or "rite at" in l))]
+            if tops and all(("verifsim/" in t_ or "/zsimrt" in t_) for t_ in tops):
+                repo_frames = []
             if not repo_frames:
                 # a race between harness goroutines only: our bug, never a violation
                 harness_races.append((c["leg"], c["seed"], rep[:3000]))
